@@ -35,7 +35,7 @@ CLAIMS = {
         design="DESIGN.md §4 C05",
     ),
     "C06": dict(
-        text="Path-exhaustive symbolic execution of the real constructors over name sets (presence booleans for 19 names + 1 foreign, <= 4 true in quick / <= 5 in thorough, two keyword orders): for each path z3 decides that accept/reject, dimension, flavor, coordinate classes and which supplied (symbolic) value is stored where equal the documented grammar; value kinds enumerated.",
+        text="Path-exhaustive symbolic execution of the real constructors over name sets (presence booleans for 19 names + 1 foreign, <= 5 true; <= 6 for vector.obj in thorough, two keyword orders): for each path z3 decides that accept/reject, dimension, flavor, coordinate classes and which supplied (symbolic) value is stored where equal the documented grammar; value kinds enumerated.",
         note="PARTIAL: vector.obj, the six object classes, vector.array (name logic + real NumPy construction) and awkward _check_names; ak.zip/vector.Array beyond _check_names are not reachable. The grammar encoding (props/c06.py::Spec) is trusted." + COMMON_NOTE,
         design="DESIGN.md §4 C06",
     ),
